@@ -148,8 +148,10 @@ def conclude(prop, tier, seed, mod, results, dead, wall):
     for key in sorted(known_hits):
         print('KNOWN-FINDING: property=%s %s (%d witnesses this run)' % (prop, known.describe(prop, key),
                                                                           len(known_hits[key])))
+    rdir = os.path.join(common.OUT_DIR, 'replay', prop)
+    if os.path.isdir(rdir) and 'VERIF_KEEP_REPLAYS' not in os.environ:
+        shutil.rmtree(rdir, ignore_errors=True)  # witnesses of earlier runs would only confuse
     if unknown:
-        rdir = os.path.join(common.OUT_DIR, 'replay', prop)
         os.makedirs(rdir, exist_ok=True)
         seen = set()
         for v in unknown:
